@@ -17,7 +17,7 @@ DROP_KW = {'typename', 'template', 'inline', 'BOOST_NOINLINE', 'BOOST_FORCEINLIN
 EXC_RET = '( HandledEnum ) 0'
 
 def back_xform(templates, typevars=None, refparams=('fsm',), throwers=(), members=(), methods=(),
-               rewrites=(), exc_ret=EXC_RET, enums=None, pre_rewrites=(), try_=False, drop=DROP_KW, refvals=(), post=None, foreach=False, size_of=None):
+               rewrites=(), exc_ret=EXC_RET, enums=None, pre_rewrites=(), try_=False, drop=DROP_KW, refvals=(), post=None, foreach=False, size_of=None, guards=None):
     def xf(tk, F):
         tk = X.rule_pp(tk, F)
         tk = X.rule_ns(tk, F)
@@ -36,6 +36,7 @@ def back_xform(templates, typevars=None, refparams=('fsm',), throwers=(), member
         if rewrites: tk = X.rule_rewrites(tk, F, rewrites)
         if throwers: tk = X.rule_exc(tk, F, set(throwers), exc_ret)
         if try_: tk = X.rule_try(tk, F)
+        if guards: tk = X.rule_scope_guard(tk, F, guards)
         if post: tk = post(tk, F)
         return tk
     return xf
